@@ -1,10 +1,11 @@
 SPECIFICATION Spec
 CONSTANTS
-  N = 3
+  N = 4
   WithQueries = FALSE
-  WithMixed = TRUE
+  WithMixed = FALSE
   HeavyLaws = FALSE
   Mutant <- NoMutant
 VIEW View
-INVARIANT GroupInv
+INVARIANT ImplRoutes
+INVARIANT PureIdentities
 CHECK_DEADLOCK FALSE
